@@ -11,7 +11,7 @@ RULE = ('A real BP agent processes one received bundle (independent RFC 9171 enc
         'bundles.  Enumerated completely: every subset of the five report flags (reception, forwarding, delivery, '
         'deletion, status-time) x report-to {dtn:none, dtn node, ipn node} x outcome {deliver, forward, forward with '
         'fragmentation, delete route, no route, forward without transmit route, security failure, forward whose '
-        'convergence layer raises at hand-over} = 768 cells; '
+        'convergence layer raises at hand-over, the same with a bundle that has to be fragmented} = 864 cells; '
         'Hypothesis adds random bundle content (EIDs, timestamps on CBOR boundaries, CRC types, extension blocks, '
         'payload sizes) around the same cells.  Oracle on the octets handed to the convergence layer, parsed '
         'independently: a report appears only if report-to != dtn:none and a requested action occurred (occurrence '
@@ -26,10 +26,10 @@ ASSUMPTIONS = [
     'bundles that are themselves administrative records are not generated (RFC 9171 forbids report requests on them)',
     'for a bundle that matches no route the agent records nothing but "received"; only the "only if" direction is judged there',
 ]
-EXHAUSTIVE_PART = '2^5 report-flag subsets x 3 report-to values x 8 outcomes = 768 cells'
+EXHAUSTIVE_PART = '2^5 report-flag subsets x 3 report-to values x 9 outcomes = 864 cells'
 
 NODE = 'dtn://me/'
-OUTCOMES = ['deliver', 'forward', 'forward-frag', 'delete', 'noroute', 'fwd-no-tx', 'sec-fail', 'fwd-cl-fails']
+OUTCOMES = ['deliver', 'forward', 'forward-frag', 'delete', 'noroute', 'fwd-no-tx', 'sec-fail', 'fwd-cl-fails', 'fwd-frag-cl-fails']
 RPT_TO = [['dtn', 'none'], ['dtn', '//reports/here'], ['ipn', 77, 2]]
 
 
@@ -68,7 +68,7 @@ def strategy(tier):
 def enumerate_cases(tier):
     for outcome, mask, rpt in itertools.product(OUTCOMES, range(32), range(3)):
         yield {'history': [{'outcome': outcome, 'mask': mask, 'rpt': rpt, 'src': ['dtn', '//src/'], 'ts': [1000, mask],
-                            'pcrc': 1, 'ycrc': 2, 'plen': 600 if outcome == 'forward-frag' else 20, 'ext': [], 'other_flags': 0}]}
+                            'pcrc': 1, 'ycrc': 2, 'plen': 600 if outcome in ('forward-frag', 'fwd-frag-cl-fails') else 20, 'ext': [], 'other_flags': 0}]}
 
 
 def pinned_cases():
@@ -81,10 +81,10 @@ def build(item, index):
     outcome = item['outcome']
     dest = {'deliver': ['dtn', '//me/svc'], 'forward': ['dtn', '//fwd/x'], 'forward-frag': ['dtn', '//fwd/x'],
             'delete': ['dtn', '//del/x'], 'noroute': ['dtn', '//zzz/q'], 'fwd-no-tx': ['dtn', '//lost/x'],
-            'fwd-cl-fails': ['dtn', '//fwd/x'],
+            'fwd-cl-fails': ['dtn', '//fwd/x'], 'fwd-frag-cl-fails': ['dtn', '//fwd/x'],
             'sec-fail': ['dtn', '//me/svc']}[outcome]
     flags = flag_bits(item['mask']) | int(item.get('other_flags', 0))
-    if outcome == 'forward-frag':
+    if outcome in ('forward-frag', 'fwd-frag-cl-fails'):
         flags &= ~r.FLAG_NO_FRAGMENT
     src = item['src']
     if r.eid_text(src) == NODE:
@@ -147,14 +147,14 @@ def one(node, item, index, out, seen):
         out.label('repeat-in-history')
         return
     seen.add(ident)
-    if outcome == 'forward-frag':
+    if outcome in ('forward-frag', 'fwd-frag-cl-fails'):
         empty = dict(bundle, blocks=bundle['blocks'][:-1] + [dict(bundle['blocks'][-1], data='')])
         node.config.tx_route_table[0].mtu = len(r.encode(empty)) + 80
     else:
         node.config.tx_route_table[0].mtu = None
     # the convergence layer towards the forwarding next hop fails at hand-over (its service went away); reports travel
     # over another next hop and still get out
-    node.cl.fail_next = {'dtn://next/'} if outcome == 'fwd-cl-fails' else set()
+    node.cl.fail_next = {'dtn://next/'} if outcome in ('fwd-cl-fails', 'fwd-frag-cl-fails') else set()
     n_sent, n_rec = len(node.sent()), len(node.records())
     err = node.receive(wire)
     if err is not None:
@@ -176,7 +176,7 @@ def one(node, item, index, out, seen):
         occurred.add('delivered')
     if forwarded:
         occurred.add('forwarded')
-    if outcome in ('delete', 'fwd-no-tx', 'sec-fail', 'fwd-cl-fails') and not delivered and not forwarded:
+    if outcome in ('delete', 'fwd-no-tx', 'sec-fail', 'fwd-cl-fails', 'fwd-frag-cl-fails') and not delivered and not forwarded:
         occurred.add('deleted')
     want_kind = {'deliver': 'delivered', 'forward': 'forwarded', 'forward-frag': 'forwarded'}.get(outcome)
     if want_kind and want_kind not in occurred:
